@@ -169,7 +169,7 @@ var c20Owned = map[string]bool{"telegram.me": true, "telegram.dog": true, "t.me"
 // port; a scheme-less link that starts with "//" is a network-path reference, which the grammar does not
 // contain (not judged beyond totality).
 var c20SchemePart = regexp.MustCompile(`^([A-Za-z][A-Za-z0-9+.\-]*)://`)
-var c20RestPart = regexp.MustCompile(`^(?s)([A-Za-z0-9.\-]*)(:[0-9]*)?((?:/[^/?#]*)*)(\?[^#]*)?(#.*)?$`)
+var c20RestPart = regexp.MustCompile(`^(?s)((?:[A-Za-z0-9.\-%]|[\x80-\xff])*)(:[0-9]*)?((?:/[^/?#]*)*)(\?[^#]*)?(#.*)?$`)
 
 func c20HasCTL(s string) bool {
 	for i := 0; i < len(s); i++ {
@@ -279,10 +279,17 @@ func c20Oracle(link string) c20Expect {
 		return e
 	}
 	// host
+	// (a host may carry percent-escapes and non-ASCII text: RFC 3986 reg-name. Only ASCII letter case, a
+	// trailing dot and escapes of the very same bytes are "another spelling"; a host that equals an owned
+	// one only after Unicode case folding or compatibility mapping — teleſco.pe, ｔ.me — is a different host)
+	hostDec, hostOK := c20PctDecode(host)
 	switch {
 	case c20Owned[host]:
-	case c20Owned[strings.TrimSuffix(c20AsciiLower(host), ".")]:
-		e.either = "another spelling (letter case / trailing dot) of a Telegram-owned host"
+	case !hostOK || strings.ContainsAny(hostDec, "/:?#@[]"):
+		// a malformed escape, or an escaped delimiter inside the host: how that reads is not fixed by the statement
+		return c20Expect{structured: true}
+	case c20Owned[strings.TrimSuffix(c20AsciiLower(hostDec), ".")]:
+		e.either = "another spelling (letter case / trailing dot / percent-escapes) of a Telegram-owned host"
 	default:
 		e.mustErr = "host " + host + " is not Telegram-owned"
 		return e
@@ -425,7 +432,9 @@ func c20Judge(op []string, out string) string {
 
 var c20Schemes = []string{"", "http://", "https://", "tg://", "ftp://", "HTTP://"}
 var c20ReservedForGen = []string{"telegram.me", "telegram.dog", "t.me", "tx.me", "telesco.pe"}
-var c20LookAlikes = []string{"t.me.evil.com", "xt.me", "T.ME", "t.me.", "", "evil.com", "Telegram.Me", "t-me", "telesco.pe.", "me", "joinchat"}
+var c20LookAlikes = []string{"t.me.evil.com", "xt.me", "T.ME", "t.me.", "", "evil.com", "Telegram.Me", "t-me", "telesco.pe.", "me", "joinchat",
+	// equal to an owned host only under Unicode case folding / compatibility mapping / homoglyphs
+	"tele\u017fco.pe", "TELE\u017fCO.PE", "tele%C5%BFco.pe", "\uff54.me", "t\u3002me", "t.m\u0435", "telegram.\u212ae", "t.m%65", "%74.me"}
 var c20Ports = []string{"", ":443", ":80"}
 var c20QF = []string{"", "?start=abc", "#frag", "?a=1&b=%20#x%41"}
 
